@@ -493,3 +493,99 @@ Theorem xrun_builder_correct m evt rl eoi_off fuel start end_state input o c' :
 Proof.
   intros. apply builder_correct. eapply xrun_events_nested; eauto.
 Qed.
+
+(* ---------- the end-of-input leaf is only a stack entry of its own, if EOI is only shifted into the end state ---------- *)
+Definition eoi_stops (m : machine) (end_state : Z) : Prop := forall s more q, m_act m s 0 more = Shift q -> q = end_state.
+
+Section EoiLeaf.
+Variable m : machine.
+Variable evt : ev_table.
+Variable fixws : bool.
+Variable E : Z.
+Variable end_state : Z.
+Hypothesis Heoi : eoi_stops m end_state.
+
+Definition noE (t : tree) : Prop := ~ In (E, E) (leaves t).
+
+Inductive above_ok : list xentry -> Prop :=
+| ab_bot b : is_leaf (x_tree b) -> above_ok [b]
+| ab_cons e rest : noE (x_tree e) -> above_ok rest -> above_ok (e :: rest).
+
+Definition weak_ok (st : list xentry) : Prop := Forall (fun e => is_leaf (x_tree e) \/ noE (x_tree e)) st.
+
+Lemma above_weak st : above_ok st -> weak_ok st.
+Proof. induction 1; constructor; auto; constructor. Qed.
+
+Lemma above_skipn n : forall st, above_ok st -> (n < length st)%nat -> above_ok (skipn n st).
+Proof.
+  induction n as [|n IH]; intros st H Hl; [exact H|]. inversion H; subst; simpl in Hl; [lia|]. simpl. apply IH; [assumption|lia].
+Qed.
+
+Lemma above_firstn_noE n : forall st, above_ok st -> (n < length st)%nat ->
+  ~ In (E, E) (forest_leaves (map x_tree (rev (firstn n st)))).
+Proof.
+  induction n as [|n IH]; intros st H Hl; [intros []|]. inversion H; subst; simpl in Hl; [lia|].
+  simpl. rewrite map_app, forest_leaves_app. intros Hin. apply in_app_or in Hin. destruct Hin as [Hin|Hin].
+  - revert Hin. apply IH; [assumption|lia].
+  - unfold forest_leaves in Hin. simpl in Hin. rewrite app_nil_r in Hin. contradiction.
+Qed.
+
+Lemma xstep_eoi_leaf c c' : xc_state c <> end_state -> above_ok (xc_stack c) ->
+  Forall (fun t => t_off t < t_end t) (xc_input c) ->
+  xstep m evt fixws E c = XContinue c' ->
+  (above_ok (xc_stack c') \/ (xc_state c' = end_state /\ weak_ok (xc_stack c'))) /\
+  Forall (fun t => t_off t < t_end t) (xc_input c').
+Proof.
+  intros Hne Hab Htok. unfold xstep.
+  destruct (m_act m (xc_state c) _ _) as [q|rule| |row] eqn:Eact; try discriminate.
+  - intros H. injection H as <-. simpl.
+    destruct (xc_input c) as [|t rest] eqn:Ein.
+    + simpl in *. split; [|constructor]. right. split; [exact (Heoi _ _ _ Eact)|].
+      constructor; [left; exact I|apply above_weak; exact Hab].
+    + simpl in *. inversion Htok as [|? ? Ht Hrest]; subst.
+      destruct (t_sym t =? 0) eqn:E0.
+      * apply Z.eqb_eq in E0. rewrite E0 in Eact. split; [|exact Htok]. right. split; [exact (Heoi _ _ _ Eact)|].
+        constructor; [left; exact I|apply above_weak; exact Hab].
+      * split; [|exact Hrest]. left. constructor; [|exact Hab]. unfold noE. simpl. intros [H|[]]. injection H as H1 H2. lia.
+  - destruct (_ <=? _)%nat eqn:El; [discriminate|]. apply Nat.leb_gt in El.
+    destruct (lhs_range _ _) as [off endoff]. destruct (apply_rule _ _ _ _ _) as [evs endoff'].
+    destruct (_ =? -1); [discriminate|]. intros H. injection H as <-. simpl. split; [|exact Htok].
+    left. constructor; [|apply above_skipn; assumption].
+    unfold noE. simpl x_tree. rewrite leaves_node. apply above_firstn_noE; assumption.
+Qed.
+
+Lemma xrun_eoi_leaf fuel : forall c o c', above_ok (xc_stack c) ->
+  Forall (fun t => t_off t < t_end t) (xc_input c) ->
+  xrun_loop fuel m evt fixws E end_state c = (o, c') -> weak_ok (xc_stack c').
+Proof.
+  induction fuel as [|f IH]; intros c o c' Hab Htok; simpl.
+  - intros H. injection H as _ <-. apply above_weak. exact Hab.
+  - destruct (xc_state c =? end_state) eqn:Eend; [intros H; injection H as _ <-; apply above_weak; exact Hab|].
+    apply Z.eqb_neq in Eend.
+    destruct (xstep m evt fixws E c) as [c1|o1] eqn:Es; [|intros H; injection H as _ <-; apply above_weak; exact Hab].
+    destruct (xstep_eoi_leaf _ _ Eend Hab Htok Es) as [[Hab1|[Hst1 Hw1]] Htok1].
+    + apply IH; assumption.
+    + intros H. destruct f as [|f']; simpl in H.
+      * injection H as _ <-. exact Hw1.
+      * apply Z.eqb_eq in Hst1. rewrite Hst1 in H. injection H as _ <-. exact Hw1.
+Qed.
+
+End EoiLeaf.
+
+(* the producer theorem with the condition on the machine instead of the final stack *)
+Theorem xrun_events_nested_eoi m evt rl eoi_off fuel start end_state input o c' :
+  nested_table evt -> eoi_stops m end_state ->
+  Forall (fun t => t_sym t <> 0) input ->
+  ordered (map tok_range input) eoi_off ->
+  Forall (fun t => 0 <= t_off t) input -> 0 <= eoi_off ->
+  xrun fuel m evt true start end_state eoi_off input = (o, c') ->
+  Forall (fun e => wf_tree evt rl (x_tree e)) (xc_stack c') ->
+  ok_events (xc_events c') = true /\ in_input eoi_off (xc_events c') = true.
+Proof.
+  intros Hnest Heoi Hnz Hord Hpos Hpos0 Hrun Hwf.
+  eapply xrun_events_nested; eauto.
+  unfold xrun in Hrun. eapply (xrun_eoi_leaf m evt true eoi_off end_state Heoi); [| |exact Hrun].
+  - constructor. exact I.
+  - simpl. pose proof (ordered_Forall_ne _ _ Hord) as H. rewrite Forall_forall in *. intros t Ht.
+    apply (H (tok_range t)). apply in_map. exact Ht.
+Qed.
